@@ -2,6 +2,7 @@
 package props
 
 import (
+	"fmt"
 	"os"
 	"sort"
 	"strconv"
@@ -113,5 +114,23 @@ func engineAWith(id, tier string, specs []scen.Spec, mons func() []explore.Monit
 	if extra != nil {
 		extra(o)
 	}
-	return o.Finish()
+	rc := o.Finish()
+	// seeds that cannot be built on this tree: if that left nothing explored
+	// and nothing was found, there is no verdict (infrastructure failure)
+	built, failed := 0, []string{}
+	for _, s := range stats {
+		if s.SeedError == "" {
+			built++
+		} else {
+			failed = append(failed, s.Scenario+"/"+s.Seed+": "+s.SeedError)
+		}
+	}
+	for _, f := range failed {
+		fmt.Fprintln(os.Stderr, "seed could not be built:", f)
+	}
+	if rc == 0 && len(failed) > 0 {
+		fmt.Fprintf(os.Stderr, "%s: %d of %d seed states could not be built on this tree and no violation was found from the others: no verdict\n", id, len(failed), len(stats))
+		return 2
+	}
+	return rc
 }
